@@ -3,7 +3,7 @@
 
 use crate::defect::INJECTORS;
 use crate::exec::{build_request, capture_logs, execute, install_logger, take_logs, Outcome};
-use crate::gen::{gen_cfg, gen_logical, GenOpts, Speller};
+use crate::gen::{gen_cfg, gen_logical, GenOpts, Overrides, Speller};
 use crate::json::J;
 use crate::model::{Answer, Case};
 use crate::mon::{judge, violation};
@@ -341,6 +341,10 @@ const SIGNATURE_STAYS_VALID: [&str; 9] = [
 ];
 
 fn scan_case_with(t: &mut Tally, case: &Case, label: &str, presented_valid: Option<&str>) {
+    scan_case_full(t, case, label, presented_valid, Vec::new())
+}
+
+fn scan_case_full(t: &mut Tally, case: &Case, label: &str, presented_valid: Option<&str>, extra: Vec<(String, Vec<u8>)>) {
     capture_logs(true);
     let rec = execute(case);
     let logs = take_logs();
@@ -363,6 +367,7 @@ fn scan_case_with(t: &mut Tally, case: &Case, label: &str, presented_valid: Opti
     // key material for the date the provider is asked for (if known), else the server's date
     let date = j.analysis.provider_args.as_ref().map(|a| a.2.clone()).unwrap_or_else(|| case.cfg.now.yyyymmdd());
     let mut pats = key_patterns(&secret, &date, &case.cfg.region, &case.cfg.service);
+    pats.extend(extra);
     let refused = !rec.outcome.is_ok();
     let mut sig_pat: Option<Vec<u8>> = None;
     // when the client presented the correct digits in another letter case, windows of what it presented overlap the
@@ -589,6 +594,62 @@ fn shard(seed: u64, shard: u64, n: u64) -> Tally {
         } else {
             format!("W-defect {:?}", applied)
         };
+        if i % 16 == 7 {
+            // a signing oracle: a field the client chooses freely (the session token of a presigned URL, which may hold line
+            // feeds as %0A) set to the string-to-sign of *another* request R of the same key, day and scope that was refused
+            // for its wrong signature. Anything emitted that is a keyed digest of that field under the signing key is R's
+            // correct signature.
+            let mut lr = gen_logical(&mut r, &cfg, &GenOpts::default());
+            lr.secret = l.secret.clone();
+            lr.access_key = l.access_key.clone();
+            lr.t = l.t;
+            let mut srr = Rng::keyed(seed, "C17", "oracle-spell-r", shard, i);
+            let mut spr = Speller {
+                r: &mut srr,
+                level: 0,
+            };
+            let (rcase, rfacts) = crate::gen::make_case(&lr, &cfg, &mut spr, &Overrides::default(), 0);
+            let _ = rcase;
+            let sts_text = String::from_utf8_lossy(&rfacts.sts).to_string();
+            let mut lp = gen_logical(
+                &mut r,
+                &cfg,
+                &GenOpts {
+                    carrier: Some(crate::rm::decide::Carrier::Query),
+                    token: Some(true),
+                    ..Default::default()
+                },
+            );
+            lp.secret = l.secret.clone();
+            lp.access_key = l.access_key.clone();
+            lp.t = l.t;
+            lp.token = Some(sts_text);
+            let ov = Overrides {
+                signature: if r.coin() {
+                    Some(r.string_from("0123456789abcdef", 64))
+                } else {
+                    None
+                },
+                ..Default::default()
+            };
+            let mut srp = Rng::keyed(seed, "C17", "oracle-spell-p", shard, i);
+            let mut spp = Speller {
+                r: &mut srp,
+                level: 0,
+            };
+            let (pcase, _) = crate::gen::make_case(&lp, &cfg, &mut spp, &ov, 0);
+            t.count("signing_oracle_probes");
+            scan_case_full(
+                &mut t,
+                &pcase,
+                "signing-oracle probe (token = string-to-sign of another, refused request)",
+                None,
+                vec![
+                    ("correct signature of another (refused) request whose string-to-sign the client sent as its session token".to_string(), rfacts.sig.clone().into_bytes()),
+                    ("the same in upper case".to_string(), rfacts.sig.to_uppercase().into_bytes()),
+                ],
+            );
+        }
         let stays_valid = !applied.is_empty() && applied.iter().all(|a| SIGNATURE_STAYS_VALID.contains(a));
         scan_case_with(
             &mut t,
@@ -685,11 +746,12 @@ pub fn run(tier: Tier) -> i32 {
     ctx.gate("requests refused for another reason although their signature is correct (stale, scope, requirements, provider failure)", tally.get("decorated_correct_signature_refused"), tier.n(2000, 60_000));
     ctx.gate("stale / post-dated refusals whose correct signature the oracle knows", tally.get("stale_or_post_dated_refusals_whose_correct_signature_is_known"), tier.n(1000, 30_000));
     ctx.gate("requests refused before the comparison (stray Authorization parameter, unsigned required header …) whose presented signature stays valid", tally.get("refused_before_the_comparison_with_a_signature_that_stays_valid"), tier.n(1000, 30_000));
+    ctx.gate("signing-oracle probes (session token = string-to-sign of another request of the same key and scope)", tally.get("signing_oracle_probes"), tier.n(4000, 150_000));
     ctx.gate("public key / request / response types formatted", tally.get("public_key_types_formatted"), tier.n(10_000, 300_000));
     ctx.gate("log records at debug level or above judged", tally.get("log_records_judged/DEBUG") + tally.get("log_records_judged/INFO") + tally.get("log_records_judged/WARN") + tally.get("log_records_judged/ERROR"), tier.n(100, 1000));
     let rep = Report {
         level: "exploration",
-        rule: "Taint scan. Every execution of W-sign / W-defect (no defect, each injector alone — a refusal at every rank incl. every provider failure kind —, random pairs; both carriers, all option sets) runs with a capturing log::Log at max level Trace. Scanned: the error's Display and Debug plus its alternate / hex-flavoured / width / precision renderings and its source() chain, {} {:#} {:80} {:.8} {:?} {:#?} {:x?} {:#x?} {:X?} of KSecretKey…KSigningKey and of KeyTooLongError (also boxed and converted), GetSigningKeyRequest/Response, SigV4AuthenticatorResponse, (unstable feature) CanonicalRequest, AuthParams, SigV4Authenticator, returned principal/session, and every captured log record of level Error/Warn/Info/Debug, including records emitted while keys are constructed and values formatted (trace records are counted and used only as the control); a quarter of the shards run with the logger at Debug, as a deployment would. Patterns: secret, 'AWS4'+secret, kDate, kRegion, kService, kSigning — raw, hex, HEX, separated hex (`:`/space/`0x`/`\\x`, found after separators are stripped), base64 (std / url-safe, three alignments), decimal and hex lists ({:?} {:x?} {:X?} {:02x?} {:#04x?}), escape_ascii, escape_debug, lossy UTF-8, trimmed — and, for a refused request, the correct signature the reference model computes (either case); a match of ≥ 16 consecutive pattern bytes is a violation. Secrets are 16–64 random characters, or (one case in six) 2–7 characters from an alphabet nothing else in the workload uses, searched for as a whole (longer than 40: the provider's key type refuses them), a quarter with white space, a quote, a backslash or a non-ASCII character at an edge; wrong signatures include prefixes and one-digit-off variants of the correct one (then only the complete correct signature counts); when a request is refused for another reason although the signature it presented is the correct one (stale, wrong scope, a required header not signed, a provider failure), errors and values that hold what the client sent are not held against the library, but every log record at debug level or above is searched for that signature (for refusals before the comparison — a stray Authorization parameter, a required header left unsigned, a provider failure — the generator supplies the signature that becomes valid once the defect is taken away). Distinct = distinct scanned cases by hash.".into(),
+        rule: "Taint scan. Every execution of W-sign / W-defect (no defect, each injector alone — a refusal at every rank incl. every provider failure kind —, random pairs; both carriers, all option sets) runs with a capturing log::Log at max level Trace. Scanned: the error's Display and Debug plus its alternate / hex-flavoured / width / precision renderings and its source() chain, {} {:#} {:80} {:.8} {:?} {:#?} {:x?} {:#x?} {:X?} of KSecretKey…KSigningKey and of KeyTooLongError (also boxed and converted), GetSigningKeyRequest/Response, SigV4AuthenticatorResponse, (unstable feature) CanonicalRequest, AuthParams, SigV4Authenticator, returned principal/session, and every captured log record of level Error/Warn/Info/Debug, including records emitted while keys are constructed and values formatted (trace records are counted and used only as the control); a quarter of the shards run with the logger at Debug, as a deployment would. Patterns: secret, 'AWS4'+secret, kDate, kRegion, kService, kSigning — raw, hex, HEX, separated hex (`:`/space/`0x`/`\\x`, found after separators are stripped), base64 (std / url-safe, three alignments), decimal and hex lists ({:?} {:x?} {:X?} {:02x?} {:#04x?}), escape_ascii, escape_debug, lossy UTF-8, trimmed — and, for a refused request, the correct signature the reference model computes (either case); a match of ≥ 16 consecutive pattern bytes is a violation. Secrets are 16–64 random characters, or (one case in six) 2–7 characters from an alphabet nothing else in the workload uses, searched for as a whole (longer than 40: the provider's key type refuses them), a quarter with white space, a quote, a backslash or a non-ASCII character at an edge; wrong signatures include prefixes and one-digit-off variants of the correct one (then only the complete correct signature counts); when a request is refused for another reason although the signature it presented is the correct one (stale, wrong scope, a required header not signed, a provider failure), errors and values that hold what the client sent are not held against the library, but every log record at debug level or above is searched for that signature (for refusals before the comparison — a stray Authorization parameter, a required header left unsigned, a provider failure — the generator supplies the signature that becomes valid once the defect is taken away). One case in sixteen is a signing-oracle probe: a presigned URL whose session token is the string-to-sign of another request of the same key, day and scope; that request's correct signature is then a pattern. Distinct = distinct scanned cases by hash.".into(),
         assumptions: vec!["leaks shorter than 16 consecutive bytes of a pattern are not detected, except whole short secrets of 4–15 bytes".into(), "trace-level records are outside the statement".into()],
         extra: J::obj().set("calibrated_vectors", J::i(pre.unwrap_or(0) as i64)),
     };
